@@ -72,3 +72,18 @@ Theorem C01_history_lengths : forall body sigs fresh dv, (forall n, fresh n <> "
     length (h_responses h') = (length (h_responses h) + length cs)%nat.
 Proof. exact history_lengths. Qed.
 Print Assumptions C01_history_lengths.
+
+(** a MultiCall batch of registered functions (calls and notifications interleaved): every job enters its
+    callable once, in job order (a notification on a pooled dispatcher is handed to the pool once); the
+    results are those of the non-notification jobs, in job order; the History gains one request text (the
+    array of the jobs' 2.0 requests) and one response text *)
+Theorem C01_batch : forall body sigs fresh dv, (forall n, fresh n <> ""%string) ->
+  forall srvf reg pool sjc c mcfg js n h,
+    js <> [] -> Forall (good_job body sigs reg) js ->
+    multicall body sigs fresh dv srvf (mkSrv reg pool sjc) None c mcfg (map js_job js) n h
+    = (Some (Ok (job_results js)), map (job_event srvf pool) js,
+       add_response (add_request h (VList (job_values fresh js n)))
+                    (match job_responses fresh srvf sjc js n with [] => None | os => Some (VList (map norm os)) end),
+       (n + length js)%nat).
+Proof. exact batch_call. Qed.
+Print Assumptions C01_batch.
